@@ -46,7 +46,8 @@ The ops mirror `Machine.op` (coq/theories/Mut/Machine.v) one to one:
 
 API
 ---
-``replay(hist, oracles=(...)) -> Run``
+``replay(hist, oracles=(...), queries=True) -> Run``   (queries: after every step - or from step index `queries` on - the
+    read-only API is called on every tree, `run_queries`; results are not compared here, the calls warm whatever caches exist)
     runs the history on the nutree found in NUTREE_REPO.  Every op runs inside try/except;
     the outcome is ``[0, [ids]]`` (returned node / new tree index) or ``[1, common.err_class(e)]``.
     An op whose node/tree references are not live (never generated; can appear while shrinking)
@@ -166,6 +167,7 @@ class World:
         self.calcs: list = []
         self.caller_dicts: dict = {}     # update_meta payload (json) -> the ONE dict object the caller passes for it
         self.caller_msgs: list = []      # aliasing found while an op ran (from_dict arguments)
+        self.caller_keys: dict = {}      # sort key table (json) -> the ONE key function the caller passes for it
 
     # -- references -----------------------------------------------------
     def rel(self, node) -> int:
@@ -586,11 +588,16 @@ def execute(w: World, op):
         if keyfn is None:
             key = None
         else:
-            def key(node):
-                v = tbl.get(str(w.rel(node)), node.name)
-                if v is None:
-                    raise CallbackFault("sort key")
-                return v
+            # the caller keeps ONE key function per key table for the whole history and passes it again
+            ck = json.dumps(tbl, sort_keys=True)
+            key = w.caller_keys.get(ck)
+            if key is None:
+                def key(node, tbl=tbl):
+                    v = tbl.get(str(w.rel(node)), node.name)
+                    if v is None:
+                        raise CallbackFault("sort key")
+                    return v
+                w.caller_keys[ck] = key
         if p == 0:
             return (lambda: ret(t.sort(key=key, reverse=reverse, deep=deep))), coq, False
         return (lambda: ret(pn.sort_children(key=key, reverse=reverse, deep=deep))), coq, False
@@ -710,7 +717,7 @@ class Run:
 ALL_ORACLES = ("wf", "index", "sibling", "refusal", "effect")
 
 
-def replay(hist, oracles=ALL_ORACLES, keep_world=False) -> Run:
+def replay(hist, oracles=ALL_ORACLES, keep_world=False, queries=True) -> Run:
     w = World(hist["univ"])
     run = Run()
     before = w.obs()
@@ -768,10 +775,48 @@ def replay(hist, oracles=ALL_ORACLES, keep_world=False) -> Run:
                 msg = f"{name}: the state after {op[0]} cannot be examined: {type(e).__name__}: {str(e)[:120]}"
             if msg:
                 run.fails.append((si, name, msg))
+        if queries is True or (queries is not False and queries is not None and si >= queries):
+            run_queries(w)          # query - mutate - query again: the next op meets warmed caches
         before = after
     if keep_world:
         run.world = w
     return run
+
+
+def run_queries(w):
+    """Call the read-only API on every tree between two mutations (results are other properties' business; here
+    they only have to be CALLED, so that a cache or memo filled by a query and not reset by the next mutator
+    shows in the next observation).  Never raises; skipped on a tree that is not a tree any more."""
+    from nutree.common import IterMethod
+    _old = sys.getrecursionlimit()
+    sys.setrecursionlimit(OP_RECURSION_LIMIT)
+    try:
+        for t in w.trees:
+            try:
+                order, probs = _reach(t)
+                if probs or len(order) > 200:
+                    continue
+                calls = [lambda: len(t), lambda: t.count, lambda: t.count_unique, lambda: bool(t), lambda: list(t),
+                         lambda: list(t.iterator(IterMethod.POST_ORDER)), lambda: list(t.iterator(IterMethod.LEVEL_ORDER)),
+                         lambda: t.calc_height(), lambda: t.format(), lambda: t.format(repr="{node.data_id}", style="list"),
+                         lambda: t.to_dict_list(), lambda: t.children, lambda: t._self_check()]
+                for n in order[:4] + order[-2:]:
+                    calls += [lambda n=n: n.data in t, lambda n=n: t.find(n.data), lambda n=n: t.find_all(data_id=n.data_id),
+                              lambda n=n: t.find_first(node_id=n.node_id), lambda n=n: t[n.data_id],
+                              lambda n=n: n.depth(), lambda n=n: n.calc_height(), lambda n=n: n.get_path(), lambda n=n: n.is_clone(),
+                              lambda n=n: n.get_clones(), lambda n=n: n.get_siblings(add_self=True), lambda n=n: n.get_index(),
+                              lambda n=n: n.count_descendants(), lambda n=n: list(n), lambda n=n: n.format(),
+                              lambda n=n: n.get_parent_list(), lambda n=n: n.is_last_sibling(), lambda n=n: n.next_sibling(),
+                              lambda n=n: n.find_all(match=".*"), lambda n=n: n.to_dict()]
+                for c in calls:
+                    try:
+                        c()
+                    except Exception:
+                        pass
+            except Exception:
+                pass
+    finally:
+        sys.setrecursionlimit(_old)
 
 
 def safe_obs(obs):
@@ -987,6 +1032,30 @@ class Gen:
             pass
         finally:
             sys.setrecursionlimit(_old)
+        run_queries(self.w)
+
+    REPEATABLE = ("sort", "set_data", "rename", "meta", "move", "filter", "remove_children", "del")
+    PERTURB = ["rename", "rename", "set_data", "move", "move", "sort", "meta"]
+
+    def repeat_step(self):
+        """op X ... a few NON-ADDING mutations ... op X again, verbatim (same arguments, same caller objects)"""
+        rng = self.rng
+        cands = [o for o in self.ops if o[0] in self.REPEATABLE
+                 and all(self.w.live_node(r) is not None for r in op_node_refs(o))]
+        if not cands:
+            return
+        op = rng.choice(cands[-8:])
+        if rng.random() < 0.5:          # make sure the first occurrence is recent: issue it now as well
+            self.do(_copy.deepcopy(op))
+        saved = self.allowed
+        self.allowed = self.PERTURB
+        try:
+            for _ in range(rng.randint(1, 3)):
+                self.step()
+        finally:
+            self.allowed = saved
+        if all(self.w.live_node(r) is not None for r in op_node_refs(op)):
+            self.do(_copy.deepcopy(op))
 
     def pick_tree(self):
         return self.rng.randrange(len(self.w.trees))
@@ -1016,8 +1085,10 @@ class Gen:
         w = self.w
         names = self.allowed or ["add"] * 5 + ["short"] * 3 + ["addnode"] * 2 + ["move"] * 4 + ["remove"] * 3 + [
             "remove_children", "sort", "sort", "set_data", "set_data", "rename", "meta", "meta", "copyto", "addtree", "treecopy",
-            "nodecopy", "clear", "del", "filter", "from_dict"]
+            "nodecopy", "clear", "del", "filter", "from_dict", "repeat", "repeat", "repeat"]
         k = rng.choice(names)
+        if k == "repeat":
+            return self.repeat_step()
         ti = self.pick_tree()
         typed = isinstance(w.trees[ti], TypedTree)
         ids = live_ids(w, ti)
@@ -1355,6 +1426,48 @@ def gen_addtree(typed=(False,)):
         for n, tgt in ((5, 1), (7, 2), (7, 4), (6, 0)):
             alts.append(["move", 1, n, 0, tgt, None])
         yield dict(univ=univ, setup=setup, alts=alts, label="addtree" + ("/typed" if ty else ""), n=7)
+
+
+def gen_sort_triples(nmax=3, *, quick=True):
+    """Histories  setup; (sort X; one non-adding mutation)*; sort X  - X verbatim, same key object - on every
+    forest with 2..nmax nodes (plus the deeper EXTRA_SHAPES): X over Tree.sort / sort_children of a node x
+    reverse x deep x (default key | one custom key table); the mutation over rename / move-to-front of every
+    node, a different sort, and an edit of the key's input."""
+    shapes = [sh for n in range(2, nmax + 1) for sh in H.forests(n)] + EXTRA_SHAPES[:1 if quick else 4]
+    mk_univ, labeler = LABELINGS["distinct"]
+    for shape in shapes:
+        n = H.shape_size(shape)
+        univ = mk_univ(n)
+        new_d = univ.index("s:new")
+        nodes = B.shape_to_nodes(shape, lambda i, d, s: (labeler(i, d, s)[0], None, None))
+        setup = [["new", False, None]] + setup_ops(nodes, 0, False)
+        ids = list(range(1, n + 1))
+        tbl = {"tbl": {str(i): "cab"[i % 3] for i in ids}}
+        variants = [(None, False, True), (None, True, True), (tbl, False, True), (None, False, False)]
+        if not quick:
+            variants += [(tbl, True, True), (tbl, True, False), (None, True, False), (tbl, False, False)]
+        parents = [0] + ([1] if nodes and nodes[0][3] else [])
+        labels = {}
+
+        def lab(lst):
+            for lbl, kind, did, ch in lst:
+                labels[len(labels) + 1] = lbl
+                lab(ch)
+
+        lab(nodes)
+        for p in parents:
+            for keyfn, rv, dp in variants:
+                # one history per (shape, parent, X): a chain of  X; mutation; X  on the same tree object
+                x = ["sort", 0, p, keyfn, rv, dp]
+                ops = list(setup)
+                for i in ids:
+                    ops += [_copy.deepcopy(x), ["rename", 0, i, new_d], _copy.deepcopy(x), ["rename", 0, i, labels[i]]]
+                for i in ids[1:]:
+                    ops += [_copy.deepcopy(x), ["move", 0, i, 0, p, True]]
+                ops += [_copy.deepcopy(x), ["sort", 0, p, keyfn, not rv, dp], _copy.deepcopy(x),
+                        ["sort", 0, ids[0], None, not rv, False], _copy.deepcopy(x),
+                        ["set_data", 0, ids[-1], new_d, None, None], _copy.deepcopy(x)]
+                yield {"univ": univ, "ops": ops}
 
 
 def gen_exhaustive(nmax, *, labelings=("distinct", "equal", "clones"), typed=(False,), families=None, nmin=0):
@@ -2793,7 +2906,9 @@ def run_group(group, oracles=ALL_ORACLES):
     """One exhaustive group (setup + alternative last ops): replays setup+alt for every alternative.
     Returns (coq term of type mcase, observation, list of Run) - the observation is what
     `CaseMut.run_mut (CAlts setup alts)` renders."""
-    setup = replay({"univ": group["univ"], "ops": group["setup"]}, oracles=())
-    runs = [replay({"univ": group["univ"], "ops": group["setup"] + [alt]}, oracles=oracles) for alt in group["alts"]]
+    k = len(group["setup"])
+    setup = replay({"univ": group["univ"], "ops": group["setup"]}, oracles=(), queries=False)
+    # the read-only queries are called once, right before the op under test
+    runs = [replay({"univ": group["univ"], "ops": group["setup"] + [alt]}, oracles=oracles, queries=k - 1) for alt in group["alts"]]
     obs = [setup.obs, [r.obs[-1] for r in runs]]
     return coq_alts(setup, runs), obs, runs
